@@ -72,6 +72,13 @@ func init() {
 	}})
 }
 
+func init() {
+	specs = append(specs, Spec{ID: "C20", Level: "exploration", MinDistinct: 50, Engines: []Engine{
+		{Name: "seq", Pkg: "./mon/c20", Procs: 1, DeathSig: "C20/process-died"},
+		{Name: "recycle", Pkg: "./mon/c20", Env: []string{"VERIF_MODE=recycle"}, DeathSig: "C20/process-died"},
+	}})
+}
+
 func findSpec(id string) *Spec {
 	for i := range specs {
 		if specs[i].ID == id {
